@@ -1108,6 +1108,9 @@ class Scenarios(Gen):
                 fr = sorted(1 - r.random() ** 3 for _ in range(m))
             else:
                 fr = sorted(r.random() for _ in range(m))
+            # first-use windows are short and at the very start: always probe them
+            fr = sorted(fr + [r.random() * 0.004, r.random() * 0.03, r.random() * 0.12,
+                              r.random() * 0.35])
             others = [u for u in range(n) if u != t]
             for i, f in enumerate(fr):
                 spec["schedule"]["switches"].append(
